@@ -137,6 +137,20 @@ def run(repo: Repo, rep: Report, tier: str) -> None:
 
     sci = repo.cls(SYS, "SystematicLinearBlockCodeEncoder")
     n += rule_systematic_forward(rep, repo.method(sci, "forward"))
+    # "... and an all-zero syndrome": the published check matrix of the cyclic / BCH encoders annihilates what the
+    # systematic encoder produces, for every information set (same layout rule as C01)
+    from .c01 import rule_check_layout
+
+    for f_, q_ in ((f"{ENC}/cyclic_code.py", "CyclicCodeEncoder._compute_check_matrix"), (f"{ENC}/bch_code.py", "BCHCodeEncoder._compute_check_matrix")):
+        try:
+            n += rule_check_layout(rep, repo.func(f_, q_))
+        except AnalysisError:
+            rep.note(f"{q_} not present on this tree")
+    # memoised decoding helpers shared between encoder objects must be keyed by the code they belong to
+    from .c20 import rule_cache_key
+
+    enc_classes = [ci_ for mi_ in repo.modules.values() if mi_.relpath.startswith(ENC + "/") for ci_ in mi_.classes.values()]
+    n += rule_cache_key(repo, rep, enc_classes)
     rep.floor("C04 rule instances", n, 28)
     rep.decided_clauses += [
         "right inverse: exact or verified on the returned object; systematic encoders use the selection matrix of their information set",
